@@ -14,6 +14,7 @@ import (
 	"os"
 	"strconv"
 	"sync"
+	"sync/atomic"
 	"testing"
 	"time"
 
@@ -64,7 +65,7 @@ func one(t *tape.Tape) (int, string) {
 		return 0, ""
 	}
 	h := simdisk.NewHandle(d.Image) // no log, no hook: safe for concurrent ReadAt? it counts calls
-	r, err := pdf.NewReader(bytes.NewReader(d.Image), int64(len(d.Image)), &pdf.ReaderOptions{Password: d.Password})
+	r, err := pdf.NewReader(&sleepyReaderAt{data: d.Image}, int64(len(d.Image)), &pdf.ReaderOptions{Password: d.Password})
 	_ = h
 	if err != nil {
 		return 0, "open: " + err.Error()
@@ -81,7 +82,7 @@ func one(t *tape.Tape) (int, string) {
 	for i := range plans {
 		for k := 0; k < 2+t.Draw(fmt.Sprintf("n%d", i), 6); k++ {
 			l := fmt.Sprintf("t%d.%d", i, k)
-			o := op{kind: t.Draw(l+".k", 10), x: t.Draw(l+".x", 2), ref: all[t.Draw(l+".r", len(all))]}
+			o := op{kind: t.Draw(l+".k", 12), x: t.Draw(l+".x", 2), ref: all[t.Draw(l+".r", len(all))]}
 			o.seed = t.Draw(l+".seed", 100)
 			if o.kind == 5 {
 				o.ref = d.Streams[t.Draw(l+".s", len(d.Streams))]
@@ -197,6 +198,34 @@ func one(t *tape.Tape) (int, string) {
 					if err != nil || !bytes.Equal(data, body) {
 						note(fmt.Sprintf("independent reader, stream without /Length: %d bytes instead of %d (err %v)", len(data), len(body), err))
 					}
+				case 10, 11:
+					// a JPEG behind FlateDecode, closed after a few bytes: the
+					// helper goroutine must be gone before the zlib reader is
+					// pooled again - then decode a plain Flate stream
+					if d.FlateDCT != 0 {
+						if obj, err := r.Get(d.FlateDCT, true); err == nil {
+							if stm, ok := obj.(*pdf.Stream); ok {
+								if rc, err := pdf.DecodeStream(r, nil, stm); err == nil {
+									if o.seed%2 == 1 {
+										rc.Read(make([]byte, 1+o.seed))
+									}
+									rc.Close() // usually while the helper is still reading its input
+								}
+							}
+						}
+					}
+					sref := d.Streams[o.seed%len(d.Streams)]
+					if obj, err := r.Get(sref, true); err == nil {
+						if stm, ok := obj.(*pdf.Stream); ok {
+							if rc, err := pdf.DecodeStream(r, nil, stm); err == nil {
+								data, err := io.ReadAll(rc)
+								rc.Close()
+								if err != nil || !bytes.Equal(data, d.Bodies[sref]) {
+									note(fmt.Sprintf("stream %s after an early-closed Flate+DCT stream: %d bytes instead of %d (err %v)", sref, len(data), len(d.Bodies[sref]), err))
+								}
+							}
+						}
+					}
 				case 9:
 					// independent Reader, object nested too deeply: Get fails;
 					// the error must be this caller's own value
@@ -222,4 +251,25 @@ func one(t *tape.Tape) (int, string) {
 	}
 	wg.Wait()
 	return total, problem
+}
+
+// sleepyReaderAt serves the image like a slow medium: every few calls take a
+// moment, so that helper goroutines are found in the middle of a read.
+type sleepyReaderAt struct {
+	data []byte
+	n    atomic.Int64
+}
+
+func (s *sleepyReaderAt) ReadAt(p []byte, off int64) (int, error) {
+	if s.n.Add(1)%4 == 0 {
+		time.Sleep(50 * time.Microsecond)
+	}
+	if off >= int64(len(s.data)) {
+		return 0, io.EOF
+	}
+	n := copy(p, s.data[off:])
+	if n < len(p) {
+		return n, io.EOF
+	}
+	return n, nil
 }
